@@ -12,7 +12,8 @@ InDomain(in, obs) == IsScript(in) => InDomainOuts(Eff(in))
 Expected(in) ==
   IF IsScript(in) THEN RefExit(Eff(in))
   ELSE IF in.kind = "notfound" THEN [started |-> 0, exit |-> 127]
-  ELSE IF in.kind = "notexec" THEN [started |-> 0, exit |-> 126]
+  \* cannot be executed: no permission, a directory, a path through a regular file, a link to itself
+  ELSE IF in.kind \in {"notexec", "notexec_dir", "notexec_notdir", "notexec_loop"} THEN [started |-> 0, exit |-> 126]
   ELSE [exit |-> 1]     \* xargs' own usage and input errors
 
 Conforms(in, obs) ==
